@@ -32,4 +32,6 @@ for sid in ids:
             print(sid, p, 'exit', r.returncode, '|', (lines[-1] if lines else '')[:160])
     finally:
         subprocess.run(['git', '-C', '/repo', 'checkout', '--', '.'])
+        # evidence written while a seed was applied describes the seeded tree, not /repo: restore the committed files
+        subprocess.run(['git', '-C', V, 'checkout', '--', 'evidence'])
     json.dump(res, open(d + '/result.json', 'w'), indent=1)
